@@ -5,7 +5,7 @@ from ..framework import rule
 from ..astutil import dotted, call_name, call_recv, norm, walk_local, unparse
 from .. import q
 from .common import (graph_ops, GRAPH_MUTATORS, assigned_value, kw, arg, is_cached_test,
-                     enclosing_for, local_aliases)
+                     enclosing_for, local_aliases, expand_alias)
 
 META = {
     "explanation": (
@@ -33,7 +33,7 @@ ALLOWED_REF = {"CallStack.pop", "TraceManager.clear_with_descs", "TraceManager.c
 
 
 @rule("C08.R1", "C08", "PAIR", "data writes are paired with graph nodes; data deleted only for removed nodes",
-      min_instances=7)
+      min_instances=6)
 def r1(ctx, R):
     """`data[k] = v` only in CellsImpl._store_value; its callers add the node (pop on the
     evaluation path, add_node in set_value_from_key); `del data[k]` only in on_clear_trace;
@@ -60,7 +60,7 @@ def r1(ctx, R):
                 R.inst("bulk write `%s` in %s" % (norm(c)[:50], f.short))
                 if f.short != "CellsImpl.__init__":
                     R.bad(f, c, "cells data mutated in bulk outside __init__")
-    R.need(n >= 4, "expected >=4 data write sites, found %d" % n)
+    R.need(n >= 3, "expected >=3 data write sites, found %d" % n)
     callers = []
     for f in ctx.repo.all_funcs():
         for c in q.calls(f, name="_store_value"):
@@ -167,7 +167,7 @@ def r3(ctx, R):
     if call_recv(h) != "cells.model.tracegraph":
         R.bad(en, h, "hit edge goes to another graph")
     al = local_aliases(pop)
-    if al.get(call_recv(m), call_recv(m)) != "cells.model.tracegraph":
+    if expand_alias(call_recv(m), al) != "cells.model.tracegraph":
         R.bad(pop, m, "completion edge goes to another graph")
     # object-node edge for uncached callee
     obj_edges = [c for c, k, nm in graph_ops(pop, ("add_edge",)) if k == "trace" and norm(c.args[0]) == "(cells,)"]
